@@ -805,10 +805,10 @@ impl Engine for TlsSim {
     }
     fn budget(prop: &str, tier: Tier) -> (u64, u64) {
         match (prop, tier) {
-            ("C18", Tier::Quick) => (6_000, 60),
-            ("C18", Tier::Thorough) => (400_000, 600),
-            (_, Tier::Quick) => (12_000, 60),
-            (_, Tier::Thorough) => (600_000, 600),
+            ("C18", Tier::Quick) => (60_000, 60),
+            ("C18", Tier::Thorough) => (3_000_000, 600),
+            (_, Tier::Quick) => (60_000, 60),
+            (_, Tier::Thorough) => (3_000_000, 600),
         }
     }
     fn process_init() {
